@@ -115,6 +115,11 @@ def property_checks(p):
         A(("previous screen shifted down by exactly one row, nothing else changes%s" % tag, float(bad_shift), 0.0))
         A(("reading / printing alters neither the screen nor the random stream%s" % tag, float(bad_read), 0.0))
         A(("each new row is A Z + B b of the stencil values and the drawn innovation (%s)%s" % ("relative to the reference pixel" if p["kind"] == "fried" else "no reference", tag), bad_affine, 1e-9))
+        if p["kind"] != "vk":
+            # Fried variant: the covariance its A and B are built from is the von Karman covariance of ITS geometry
+            Czz_f = ic.true_blocks(s)[0]
+            A(("the stencil covariance the recursion preserves is the von Karman covariance at the true separations%s" % tag,
+               float(numpy.abs(numpy.asarray(s.cov_mat_zz, dtype=float) - Czz_f).max() / Czz_f.max()), 2e-6))
         if p["kind"] == "vk":
             # stationarity: theoretical covariance of the n_columns stencil rows is a fixed point of the recursion
             nc, nx = s.n_columns, s.nx_size
@@ -146,30 +151,43 @@ def falsify(ctx, deep=False):
     rng = ctx["rng"]
     n = 40 if deep else 8
     viols, worst = [], {}
+    def forced(rng):
+        """inputs every run includes, besides the random ones (none of them replaces a random draw)"""
+        f = []
+        f.append({"kind": "vk", "nx": 8, "ps": 1, "r0": 1.0, "L0": 20.0, "extra": 1})                       # integer pixel scale
+        f.append({"kind": "fried", "nx": 6, "ps": 2, "r0": 1.5, "L0": 30.0, "extra": 2})
+        # near the edge of what the Cholesky factorisation accepts (huge outer scale in pixels): known finding
+        f.append({"kind": "vk", "nx": 8, "ps": 0.05, "r0": 0.1, "L0": 2000.0, "extra": 2})
+        # fine sampling of a long outer scale (L0 / pixel between 5 000 and 15 000: centimetre pixels, L0 of tens of metres),
+        # below the regime of the known finding (>= 2e4) -- the recursion is stable here and must stay so
+        q_ = rng.choice([5000.0, 8000.0, 12000.0, 15000.0]); ps_ = rng.choice([0.005, 0.01, 0.02])
+        f.append({"kind": "vk", "nx": rng.choice([8, 16]), "ps": ps_, "r0": rng.uniform(0.05, 0.3), "L0": q_ * ps_, "extra": rng.choice([1, 2]), "steps": 40})
+        # bench-scale grid (tens of microns per pixel): nothing may depend on the absolute length unit
+        ps_ = rng.loguniform(2e-5, 1e-4)
+        f.append({"kind": "vk", "nx": 8, "ps": ps_, "r0": ps_ * rng.uniform(1.0, 5.0), "L0": ps_ * rng.uniform(50, 1000), "extra": 2, "steps": 40})
+        # a screen taller than 64 rows over a history of three times its length
+        f.append({"kind": "vk", "nx": rng.choice([70, 80, 97]), "ps": 0.1, "r0": 0.2, "L0": 25.0, "extra": rng.choice([1, 2]), "long": True})
+        if deep:
+            f.append({"kind": "fried", "nx": rng.choice([40, 65]), "ps": 0.1, "r0": 0.2, "L0": 25.0, "extra": 1, "long": True})
+        # a von Karman and a Fried family (siblings with another pixel scale built before)
+        for kind_ in ("vk", "fried"):
+            q = ic.gen_params(rng, small=True); q["kind"] = kind_
+            if kind_ == "vk":
+                q["nx"] = rng.randint(3, 10); q["extra"] = rng.randint(1, 3)
+            else:
+                q["nx"] = rng.choice([3, 4, 5, 6, 7, 9]); q["extra"] = rng.randint(1, 3)
+            q["family"] = True
+            f.append(q)
+        return f
+    cases = []
     for k in range(n):
         p = ic.gen_params(rng, small=not (deep and k % 4 == 0))
-        p["data_seed"] = rng.getrandbits(30); p["steps"] = rng.randint(1, 12); p["long"] = (k % 2 == 0); p["family"] = (k % 3 == 0)
-        if k == 2:
-            p.update({"kind": "vk", "nx": 8, "ps": 1, "r0": 1.0, "L0": 20.0, "extra": 1, "family": False})       # integer pixel scale
-        if k == 3:
-            p.update({"kind": "fried", "nx": 6, "ps": 2, "r0": 1.5, "L0": 30.0, "extra": 2, "family": False})
-        if k == 6:
-            # fine sampling of a long outer scale (L0 / pixel between 5 000 and 15 000: centimetre pixels, L0 of tens of metres),
-            # below the regime of the known finding (>= 2e4) -- the recursion is stable here and must stay so
-            q_ = rng.choice([5000.0, 8000.0, 12000.0, 15000.0]); ps_ = rng.choice([0.005, 0.01, 0.02])
-            p.update({"kind": "vk", "nx": rng.choice([8, 16]), "ps": ps_, "r0": rng.uniform(0.05, 0.3), "L0": q_ * ps_, "extra": rng.choice([1, 2]), "family": False, "long": False, "steps": 40})
-        if k == 7:
-            # bench-scale grid (tens of microns per pixel): nothing may depend on the absolute length unit
-            ps_ = rng.loguniform(2e-5, 1e-4)
-            p.update({"kind": "vk", "nx": 8, "ps": ps_, "r0": ps_ * rng.uniform(1.0, 5.0), "L0": ps_ * rng.uniform(50, 1000), "extra": 2, "family": False, "long": False, "steps": 40})
-        if k == 4:
-            # a screen taller than 64 rows over a history of three times its length
-            p.update({"kind": "vk", "nx": rng.choice([70, 80, 97]), "ps": 0.1, "r0": 0.2, "L0": 25.0, "extra": rng.choice([1, 2]), "family": False, "long": True})
-        if deep and k == 5:
-            p.update({"kind": "fried", "nx": rng.choice([40, 65]), "ps": 0.1, "r0": 0.2, "L0": 25.0, "extra": 1, "family": False, "long": True})
-        if k == 1:
-            # near the edge of what the Cholesky factorisation accepts (huge outer scale in pixels): known finding
-            p.update({"kind": "vk", "nx": 8, "ps": 0.05, "r0": 0.1, "L0": 2000.0, "extra": 2, "family": False})
+        p["long"] = (k % 2 == 0); p["family"] = (k % 3 == 0)
+        cases.append(p)
+    cases += forced(rng)
+    for p in cases:
+        p.setdefault("family", False); p.setdefault("long", False)
+        p["data_seed"] = rng.getrandbits(30); p.setdefault("steps", rng.randint(1, 12))
         try:
             res = property_checks(p)
         except Exception as ex:
@@ -182,7 +200,7 @@ def falsify(ctx, deep=False):
     for v in viols:
         if v["clause"] not in seen:
             seen.add(v["clause"]); keep.append(v)
-    return keep, {"evaluations": n, "max_error_per_clause": worst}
+    return keep, {"evaluations": len(cases), "max_error_per_clause": worst}
 
 
 def replay(payload):
